@@ -1,6 +1,7 @@
 import BoboVerif.Model.Decider
 import BoboVerif.Lemmas.Table
 import BoboVerif.Props.C12
+import BoboVerif.Lemmas.GenDecider
 /-!
 C13 — A singleton pattern never has two active runs.
 
@@ -395,4 +396,20 @@ theorem id_substitution (c : Cfg ε) (b : Bool) (s : DState ε) (out : List (Rec
   have : (rr.id != rl.run.id) = true := by simpa using hne
   simp [hp, hsg, hl, this]
 
+end Bobo.Decider
+
+/-! G-tie (C13): the fragments of decider.py regenerated on this run are the ones the model is built from. -/
+namespace Bobo.Decider
+/-- the forward-only test, the memory filters and the step order of `on_distributed_update` / `update()` as they
+stand in the source now (Gen/DeciderFrag.lean) equal the model's. -/
+theorem decider_source_fragments_c13 {ε : Type} (rr : Rec ε) (l : Bobo.Run.Run ε) (c : Cfg ε) (hc : c.caching = true)
+    (s : DState ε) (comp halt upd : List (Rec ε)) :
+    Bobo.Gen.DeciderFrag.ahead rr.idx rr.hist.size l.idx l.hist.size = ahead rr l ∧
+    checkAgainstCache c s comp halt upd =
+      (comp.filter (fun r => Bobo.Gen.DeciderFrag.keepCompleted (inCache s.cacheC r.id) (inCache s.cacheH r.id)),
+       halt.filter (fun r => Bobo.Gen.DeciderFrag.keepHalted (inCache s.cacheC r.id) (inCache s.cacheH r.id)),
+       upd.filter (fun r => Bobo.Gen.DeciderFrag.keepUpdated (inCache s.cacheC r.id) (inCache s.cacheH r.id))) ∧
+    Bobo.Gen.DeciderFrag.remoteOrder = remoteOrderModel ∧ Bobo.Gen.DeciderFrag.localOrder = localOrderModel ∧
+    Bobo.Gen.DeciderFrag.processEventLists = "r_halt_com+p_halt_com,r_halt_incom,r_upd+p_upd" :=
+  ⟨gen_ahead_eq rr l, gen_filters_eq c hc s comp halt upd, gen_remoteOrder_eq, gen_localOrder_eq, gen_processEventLists_eq⟩
 end Bobo.Decider
